@@ -54,7 +54,7 @@ def gen_recipe(rng, kind):
   elif kind == 'bad_value':
     rows[rng.randrange(n)][rng.randint(1, 3)] = rng.choice([2, -1, float('nan'), '1', '0', 0.5, None, 'x'])
   elif kind == 'dup_id':
-    rows.append([rows[0][0]] + rows[-1][1:])
+    rows.append(list(rows[0]) if rng.random() < 0.5 else [rows[0][0]] + rows[-1][1:])
   elif kind == 'missing_col':
     rec['missing'] = rng.sample(['control', 'treatment', 'exclude'], rng.randint(1, 2))
   elif kind == 'dup_col':
